@@ -58,6 +58,8 @@ PROP['theorems'] = PROP['theorems'] + [
     'Fit.C06.C06_go2lean_spec_size',
     'Fit.C06.C06_go2lean_spec_valid',
     'Fit.C06.C06_go2lean_spec_list',
-    'Fit.C06.C06_go2lean_spec_names']
+    'Fit.C06.C06_go2lean_spec_names',
+    'Fit.C06.C06_go2lean_consts',
+    'Fit.C06.C06_go2lean_spec_field']
 PROP['trusted_base'] = PROP['trusted_base'] + [
     "translators/go2lean (Go→Lean for a small subset of Go, notes/go2lean.md) re-translates profile/basetype/basetype.go (sizes table, Size, Valid, List, String, FromString) from the current source on every run; the agreement theorems *_go2lean_* state that the translated functions equal the hand-written model functions for all arguments; trusted: the translator's rendering of the subset (go/types computes constants and types) and FitModel/GoPrelude.lean"]
